@@ -227,6 +227,7 @@ func init() {
 		Required: p3.Required,
 		Real:     p3.Real, Stub: p3.Stub,
 		Assumptions: []string{"8-bit octets and the length of reply lines are not judged", "the expected number of replies is computed from the replies themselves (354, 334, LMTP recipient count, closing notice)", "enhanced status codes are required on the last line of a reply"},
+		Instr:       true,
 		QuickRuns:   250000, ThoroughRuns: 6000000,
 	})
 }
